@@ -2,7 +2,7 @@
    Models: BP.Main (decide), BP.Lint (rules, naming helpers, positions), tied to /repo by
    gen/GenCli.v (T0) and by real runs (T2, tools/props/c20.py). *)
 From Coq Require Import ZArith List String Ascii Bool.
-From BP Require Import CliBase Main MainProofs Lint LintProofs.
+From BP Require Import CliBase Main MainProofs Lint LintSpec LintProofs.
 From BPGen Require Import GenCli.
 Import ListNotations.
 Open Scope string_scope.
